@@ -309,6 +309,7 @@ pub fn run_c07(tier: Tier) -> i32 {
 
 #[derive(Clone, Copy, Debug, PartialEq, Eq)]
 pub enum HProp {
+    C02,
     C04,
     C18,
 }
@@ -361,6 +362,27 @@ pub fn run_cfg(prop: HProp, cfg: &ChainCfg, prefix: &[u16], render_it: bool) -> 
     }
     let mut nt = false;
     match prop {
+        HProp::C02 => {
+            // end-to-end liveness with wake-only polling across every hop
+            if let Some((_, q1)) = &f.q1 {
+                if cfg.last_finishes && f.abandon.is_none() && f.head.is_none() {
+                    v(
+                        "C02-chain-Q1-head-pending",
+                        "every handler down the chain completes unprompted, the clock is frozen, nothing is woken, yet the head call has not resolved".into(),
+                    );
+                }
+                let _ = q1;
+            }
+            if let Some((_, q2)) = &f.q2 {
+                if q2[0] != 0 {
+                    v("C02-chain-Q2-handler-pending", format!("{} handlers still pending at final quiescence", q2[0]));
+                }
+                if q2[1] == 0 && q2[2] == 0 {
+                    v("C02-chain-Q2-head-pending", "the head call is still pending at final quiescence, past every deadline".into());
+                }
+            }
+            nt = f.hstart.len() >= 2 || f.abandon.is_some();
+        }
         HProp::C04 => {
             if let (Some((aidx, _)), Some((q1idx, q1))) = (&f.abandon, &f.q1) {
                 // the head call was abandoned unresolved
@@ -449,7 +471,29 @@ pub fn run_cfg(prop: HProp, cfg: &ChainCfg, prefix: &[u16], render_it: bool) -> 
 
 pub fn configs(prop: HProp, tier: Tier) -> Vec<ChainCfg> {
     let mut out = vec![];
-    let _ = prop;
+    if prop == HProp::C02 {
+        for depth in 1..=3usize {
+            for kind in [HopKind::Mem, HopKind::Json] {
+                for last_finishes in [true, false] {
+                    for abandon_after in [None, Some(2)] {
+                        if depth == 3 && tier == Tier::Quick && (kind == HopKind::Json && abandon_after.is_some()) {
+                            continue;
+                        }
+                        out.push(ChainCfg {
+                            hops: vec![kind; depth],
+                            r_ns: if last_finishes { 10_000_000_000 } else { 50_000_000 },
+                            tau_ms: vec![0; depth],
+                            regime: Regime::NoSubscriber,
+                            last_finishes,
+                            abandon_after,
+                            alphabet: H_ABANDON | H_FINISH | H_REORDER,
+                        });
+                    }
+                }
+            }
+        }
+        return out;
+    }
     for depth in 1..=3usize {
         for last_finishes in [false, true] {
             let mk = |abandon_after: Option<u32>| ChainCfg {
